@@ -158,11 +158,39 @@ Section Proofs.
     apply (bsum_ext K). intros i Hi. apply (bsum_ext K). intros l Hl.
     rewrite !mget_mtrans by assumption. ring.
   Qed.
+
+  (* QuantumChannel.apply, non-pure branch (einsum "ijkl, ik -> jl"), on the documented construction
+     from a row-order Choi matrix with inverse=True: sum_K K rho K^dagger *)
+  Theorem qchannel_apply_nonpure_ok d Ks rho o o' : o < d -> o' < d ->
+    mget (qn_apply K d d (qn_from_operator_inv K d d (kraus_to_choi K cj (Row d) Ks)) rho) o o'
+    = kraus_entry K cj d Ks rho o o'.
+  Proof. exact (qchannel_semantics_ok d Ks rho o o'). Qed.
+
+  (* a sum with one term *)
+  Lemma msum_single r c M : wf r c M -> msum K r c [M] = M.
+  Proof.
+    intros HM. apply (mat_ext K r c); [apply wf_mk|exact HM|]. intros i j Hi Hj.
+    rewrite (mget_msum K) by assumption. cbn [map Alg.lsum]. ring.
+  Qed.
+
+  Lemma wf_to_choi o U : wf (odim o * odim o) (odim o * odim o) (to_choi K cj o U).
+  Proof.
+    unfold to_choi. cbv zeta. set (v := vectorize K o U).
+    assert (L1 : length v = odim o * odim o) by apply (length_vectorize K).
+    assert (L2 : length (vconj cj v) = odim o * odim o) by (unfold vconj; now rewrite map_length).
+    pose proof (wf_outer K v (vconj cj v)) as W. rewrite L2, L1 in W. exact W.
+  Qed.
+
+  (* to_pauli_liouville(U, order) is kraus_to_pauli([U], order): the same function of U in row and
+     in column order (this is the statement that failed before `order` was forwarded) *)
+  Theorem to_pauli_liouville_ok (ps : nat -> mat T) po col n U :
+    to_pauli_liouville K cj ps po col n U = kraus_to_pauli K cj ps po col n [U].
+  Proof.
+    unfold to_pauli_liouville, kraus_to_pauli, choi_to_pauli, liouville_to_pauli, to_liouville,
+      choi_to_liouville, kraus_to_choi. cbv zeta. cbn [map].
+    assert (Ho : odim (ord col (2 ^ n)) = 2 ^ n) by (destruct col; reflexivity). rewrite Ho.
+    rewrite msum_single; [reflexivity|].
+    pose proof (wf_to_choi (ord col (2 ^ n)) U) as W. rewrite Ho in W. exact W.
+  Qed.
 End Proofs.
 
-(* the non-pure branch of QuantumChannel.apply contracts the state with the output indices *)
-Theorem qchannel_apply_nonpure_refuted_witness :
-  z_qn_apply 2 2 (z_qn_from_operator_inv 2 2 (z_kraus_to_choi (Row 2) [[[(1,0); (2,0)]; [(0,3); (4,0)]]]))%Z
-                 [[(1,0); (2,1)]; [(5,0); (7,0)]]%Z
-  <> z_kraus_action 2 [[[(1,0); (2,0)]; [(0,3); (4,0)]]]%Z [[(1,0); (2,1)]; [(5,0); (7,0)]]%Z.
-Proof. vm_compute. intros H. discriminate H. Qed.
